@@ -27,8 +27,8 @@ func run(e *ev.Env) {
 	vt.Start()
 	flog.SetOutput(io.Discard) // config warnings ("cookie extractor is not recommended …") per app
 
-	e.Note("oracle", "reach is demanded only for: live token (>=2 s before its deadline) + matching cookie + "+
-		"(http without Origin/foreign Referer | canonical allowed Origin | https same-origin Referer); "+
+	e.Note("oracle", "unsafe methods are judged one-sidedly (the statement says 'only if'): a valid request that is rejected is "+
+		"only counted (info_rejected_although_valid|…); safe methods must pass and leave a valid token cookie; "+
 		"non-reach is demanded for: no token, cookie mismatch, never-issued / expired (>=2 s past) / consumed / deleted / "+
 		"replaced / other-session token, governing Origin or (https) Referer outside the origin rule, failed token lookup")
 	e.Note("not-asserted", "Origin: null is read as absent; https without Origin and Referer; allowed origins in non-canonical spelling; "+
